@@ -62,6 +62,21 @@ PROPS = {
         "level_note": "Trusted: Coq kernel, extraction, driver, harness. Hypotheses: MD5/UUID collision-free, <= cap distinct hashes. Goroutine-level race freedom is "
                       "shown by the race detector in the thorough tier (a test), logical atomicity by the theorem.",
     },
+    "C17": {
+        "pkg": "./c17/", "test": "TestVerif_C17", "n_quick": 500, "n_thorough": 30000, "race": True,
+        "rule": "histories of GetOne (ordered/most/random/unset, ignore-zone on/off, candidate lists with duplicates and unknown ids) / Block / clock "
+                "advance around the TTL / API changes on the real SwitchPool inside a testing/synctest bubble (virtual clock) with a fake VPC API; "
+                "observed result, API calls and the caller's slice after the call are compared. non-trivial = history containing a GetOne that returned a vSwitch "
+                "after at least one Block or clock advance; distinct = distinct input vectors",
+        "trusted": ["testing/synctest virtual clock (go1.26.8)", "shuffle and sort ties resolved by the observed result, validated against the legal set"],
+        "modelled": ["k8s LRUExpireCache (size bound 100 not modelled: E9); singleflight; math/rand"],
+        "assumptions": ["E9: at most 100 vSwitches cached"],
+        "level_text": "Theorems for every pool state, candidate list, zone, policy and every resolution of shuffle/sort ties: result is a member, in zone unless fallback "
+                      "(and then only when no in-zone candidate exists), has free addresses, ordered = first candidate, most = maximal, blocked ids are not chosen until expiry, "
+                      "caller's list unchanged, reads do not disturb the view. Tied by replaying histories on the real pool under a virtual clock.",
+        "level_note": "Trusted: Coq kernel, extraction, driver, harness, synctest. Data-race freedom under concurrent use is shown by the race detector (thorough tier), "
+                      "the theorem covers logical atomicity of the cache reads.",
+    },
 }
 
 
@@ -197,4 +212,61 @@ def dist_C16(cases):
         d["rejected"] += outs.count("-1")
         if int(ins[0]) < 500:
             d["small_lru"] += 1
+    return d
+
+
+# ---- C17 ---------------------------------------------------------------------
+def _c17_ops(ins):
+    v = [int(x) for x in ins]
+    i, ops = 2, []
+    for _ in range(v[1]):
+        n = v[i]
+        ops.append(v[i + 1:i + 1 + n])
+        i += 1 + n
+    return ops
+
+
+def sig_C17(ins, outs):
+    try:
+        ops = _c17_ops(ins)
+        for o in ops:
+            if o[0] == 0:
+                nids = o[4]
+                ids = o[5:5 + nids]
+                rest = o[5 + nids:]
+                nf = rest[1]
+                after = rest[2 + nf + 1:]
+                if after != ids:
+                    return "C17:callers-list-reordered:policy%d" % o[2]
+        return "C17:selection"
+    except Exception:
+        return "C17:?"
+
+
+def nt_C17(ins, outs):
+    try:
+        ops = _c17_ops(ins)
+        seen = False
+        for o in ops:
+            if o[0] in (1, 2):
+                seen = True
+            if o[0] == 0 and seen and o[5 + o[4]] != 0:
+                return True
+        return False
+    except Exception:
+        return False
+
+
+def dist_C17(cases):
+    d = {"histories": len(cases), "getone": 0, "block": 0, "advance": 0, "api": 0, "policy": {"0": 0, "1": 0, "2": 0, "3": 0}, "errors": 0}
+    for _, ins, outs in cases:
+        try:
+            for o in _c17_ops(ins):
+                d[["getone", "block", "advance", "api"][o[0]]] += 1
+                if o[0] == 0:
+                    d["policy"][str(o[2])] += 1
+                    if o[5 + o[4]] == 0:
+                        d["errors"] += 1
+        except Exception:
+            pass
     return d
